@@ -176,7 +176,7 @@ def main(argv):
         ok = sum(1 for o in r["obligations"] if o["status"] == "unsat")
         print("%-8s %-60s %s  %d/%d  %.1fs" % (u[0], u[1], u[2] or "", ok, n, r["wall_s"]))
         if r["error"]:
-            print("   ERROR", r["error"])
+            print("   ERROR", " | ".join(r["error"].strip().splitlines()[-3:])[:400])
             bad += 1
         for c in r.get("canaries", []):
             if c["status"] != "reachable" or a.v:
